@@ -32,6 +32,13 @@ Theorem C20_eq : forall x y,
 Proof. exact eq_all. Qed.
 Print Assumptions C20_eq.
 
+(* the wrapper accessors and the derived equality of the symbolic type agree with the numbers too *)
+Theorem C20_val_new_derived : forall x y,
+  tagtype_val (tagtype_of_u32 x) = x /\ u32_of_id (id_new x) = x /\
+  tagtype_eqb (tagtype_of_u32 x) (tagtype_of_u32 y) = (x =? y).
+Proof. intros x y. split; [apply val_roundtrip|split; [apply val_roundtrip|apply derived_eq]]. Qed.
+Print Assumptions C20_val_new_derived.
+
 Theorem C20_area : forall x,
   id_of_areatype (areatype_of_id x) = x /\
   (1 <= x <= 5 -> In (x, sAreaType (areatype_of_id x)) spec_area_names) /\
